@@ -515,6 +515,12 @@ package caldav
 //@   |   || (pcoCalls == old(pcoCalls) && mutations == old(mutations) && err != nil && local4xx(err))
 //@   ensures U2: err != nil ==> (beErr(err) || local4xx(err)) && wstatus(w) == 0
 //@   ensures U3: err == nil ==> wstatus(w) == 201
+//@   -- C10: the backend is handed exactly what the decoder made of the request body
+//@   ensures W0: pcoCalls == old(pcoCalls) + 1 ==> pcoCal == icalDecoded(icalDecoderOf(r.Body))
+//@   -- C10: the answer carries the backend's path, entity tag and modification time in the form the client reads back
+//@   ensures W1: err == nil && pcoRes != nil && hasPrefix(pcoRes.Path, "/") && !hasPrefix(pcoRes.Path, "//") ==> urlParseOk(hget(hv, respHeader(w), "Location")) && urlParsePath(hget(hv, respHeader(w), "Location")) == pcoRes.Path
+//@   ensures W2: err == nil && pcoRes != nil && pcoRes.ETag != "" ==> hget(hv, respHeader(w), "ETag") == quote(pcoRes.ETag)
+//@   ensures W3: err == nil && pcoRes != nil && !isZeroTime(pcoRes.ModTime) ==> hget(hv, respHeader(w), "Last-Modified") == timeFormat(http.TimeFormat, ns(pcoRes.ModTime))
 //@   -- C13: an invalid or foreign Content-Type is refused with 400 before anything reaches the backend
 //@   ensures U4: old(mimeErr(hdr(r, "Content-Type")) != nil || mimeType(hdr(r, "Content-Type")) != "text/calendar") ==> httpCode(err) == 400 && mutations == old(mutations) && pcoCalls == old(pcoCalls)
 //@ func caldav.(*backend).HeadGet(b, w, r) (err)
@@ -670,3 +676,8 @@ package caldav
 //@   |   && sentMethod == "PROPFIND" && sentPath == calendarHomeSet && hget(hv, lastReq.Header, "Depth") == "1"
 //@   loop 1 invariant I2: forall j int :: 0 <= j && j < #i ==> !respFailedV(ms.Responses[j])
 //@   loop 2 invariant J1: fresh(compNames)
+
+//@ -- C10: the two ends compose. What the server's Put writes (W1-W3) is what the client's populate* reads back
+//@ -- (P1-P5), given that the header values travel unchanged (T-http):
+//@ lemma C10_etag: forall x string :: unquoteOk(quote(x)) && unquoteVal(quote(x)) == x
+//@ lemma C10_time: forall n int :: timeParseOk(http.TimeFormat, timeFormat(http.TimeFormat, n)) && timeParseNs(http.TimeFormat, timeFormat(http.TimeFormat, n)) == truncSec(n)
